@@ -517,6 +517,8 @@ pub fn run(ctx: &mut Ctx) {
     // long genomes: nothing structural may depend on a machine-word, byte-counter or buffer size
     let (n_long, long) = ctx.tier.pick((30_000u32, 700usize), (400_000, 6_000));
     ctx.run_prop("mutations_long_genomes", n_long, move || strategy(long), oracle);
+    // coverage-guided search over the same strategies and oracles (thorough tier; see ptfuzz.rs)
+    crate::ptfuzz::thorough(ctx, &[("c11", 16, 1_500_000), ("c11L", 16, 200_000)]);
 }
 
 pub fn replay(ctx: &mut Ctx, sub: &str, case: &Value) {
